@@ -22,33 +22,144 @@ theorem liftRoot_spec {α : Type} {R : α → Prop} {σ σ' : State} {x : Except
   unfold liftRoot at h
   split at h
   · cases h
-  · rename_i root a' hx'
+  · rename_i x' root a'
     simp only [Except.ok.injEq, Prod.mk.injEq] at h
     obtain ⟨rfl, rfl⟩ := h
-    obtain ⟨h1, h2⟩ := hx root a' hx'
+    obtain ⟨h1, h2⟩ := hx root a' rfl
     exact ⟨h1, h2, rfl⟩
 
+/-- a query through `atRound` whose round-level function keeps `QR` -/
+theorem liftRound_spec {α : Type} {R : α → Prop} {σ σ' : State} {r p : Nat} {f : RoundR → Except Panic (RoundR × α)} {a : α}
+    (hQ : QRoot P good σ.root)
+    (hf : ∀ rr rr' a, QR P good r rr → f rr = .ok (rr', a) → QR P good r rr' ∧ R a)
+    (h : liftRoot σ (σ.root.atRound P σ.pl r p f) = .ok (σ', a)) : QRoot P good σ'.root ∧ R a ∧ σ'.pl = σ.pl :=
+  liftRoot_spec P good (fun _ _ hx => atRound_spec P good hQ hf hx) h
+
+/-! ### queries -/
+
 theorem staged_eq (σ : State) (r p : Nat) :
-    staged P σ r p = liftRoot σ (σ.root.atRound P σ.pl r p (fun rr => rr.readStaging σ.pl p)) := rfl
+    staged P σ r p = liftRoot σ (σ.root.atRound P σ.pl r p (fun rr => rr.readStaging σ.pl p)) := by
+  unfold staged liftRoot; split <;> simp_all
 
 theorem staged_spec {σ σ' : State} {r p : Nat} {st : Staged} (hQ : QRoot P good σ.root) (h : staged P σ r p = .ok (σ', st)) :
     QRoot P good σ'.root ∧ StagedOK r st ∧ σ'.pl = σ.pl := by
   rw [staged_eq] at h
-  exact liftRoot_spec P good (fun root' a hx => atRound_spec P good hQ (fun rr rr' a hq hf => readStaging_spec P good hq hf) hx) h
+  exact liftRound_spec P good hQ (fun rr rr' a hq hf => readStaging_spec P good hq hf) h
+
+theorem pinned_eq (σ : State) (r : Nat) :
+    pinned P σ r = liftRoot σ (σ.root.atRound P σ.pl r 0
+      (fun rr => .ok (rr, (⟨rr.store.pinned, (rr.store.asm rr.store.pinned).payload⟩ : Staged)))) := by
+  unfold pinned liftRoot; split <;> simp_all
+
+theorem pinned_spec {σ σ' : State} {r : Nat} {st : Staged} (hQ : QRoot P good σ.root) (h : pinned P σ r = .ok (σ', st)) :
+    QRoot P good σ'.root ∧ StagedOK r st ∧ σ'.pl = σ.pl := by
+  rw [pinned_eq] at h
+  refine liftRound_spec P good hQ (fun rr rr' a hq hf => ?_) h
+  simp only [Except.ok.injEq, Prod.mk.injEq] at hf
+  obtain ⟨rfl, rfl⟩ := hf
+  exact ⟨hq, fun pay hp => asm_ok hq.2.2 hp⟩
+
+theorem freshest_eq (σ : State) (r : Nat) :
+    freshest P σ r = liftRoot σ (σ.root.atRound P σ.pl r 0 (fun rr => .ok (rr, (rr.ok, rr.freshest)))) := by
+  unfold freshest liftRoot; split <;> simp_all
+
+theorem freshest_spec {σ σ' : State} {r : Nat} {res : Bool × Thresh} (hQ : QRoot P good σ.root)
+    (h : freshest P σ r = .ok (σ', res)) : QRoot P good σ'.root ∧ ThreshOK P good r res.2 ∧ σ'.pl = σ.pl := by
+  rw [freshest_eq] at h
+  refine liftRound_spec P good (R := fun a => ThreshOK P good r a.2) hQ (fun rr rr' a hq hf => ?_) h
+  simp only [Except.ok.injEq, Prod.mk.injEq] at hf
+  obtain ⟨rfl, rfl⟩ := hf
+  exact ⟨hq, hq.2.1⟩
+
+/-- queries that go down to a period machine without touching the step children -/
+theorem periodQuery_spec {α : Type} {σ σ' : State} {r p s : Nat} {f : PeriodR → Except Panic (PeriodR × α)} {a : α}
+    (hQ : QRoot P good σ.root)
+    (hf : ∀ pr pr' a, f pr = .ok (pr', a) → pr'.steps = pr.steps)
+    (h : liftRoot σ (σ.root.atRound P σ.pl r p (fun rr => rr.atPeriod σ.pl p s f)) = .ok (σ', a)) :
+    QRoot P good σ'.root ∧ σ'.pl = σ.pl := by
+  obtain ⟨h1, _, h3⟩ := liftRound_spec P good (R := fun _ => True) hQ (fun rr rr' a hq hfr =>
+    ⟨(atPeriod_spec P good (R := fun _ => True) hq (fun pr pr' a hqp hfp => ⟨QP_of_steps good hqp (hf pr pr' a hfp), trivial⟩) hfr).1, trivial⟩) h
+  exact ⟨h1, h3⟩
+
+theorem nextStatus_eq (σ : State) :
+    nextStatus P σ = liftRoot σ (σ.root.atRound P σ.pl σ.pl.round (predPeriod σ.pl.period)
+      (fun rr => rr.atPeriod σ.pl (predPeriod σ.pl.period) 0 (fun pr => .ok (pr, pr.cached)))) := by
+  unfold nextStatus liftRoot; simp only []; split <;> simp_all
+
+theorem nextStatus_spec {σ σ' : State} {ns : NextStatus} (hQ : QRoot P good σ.root) (h : nextStatus P σ = .ok (σ', ns)) :
+    QRoot P good σ'.root ∧ σ'.pl = σ.pl := by
+  rw [nextStatus_eq] at h
+  refine periodQuery_spec P good hQ (fun pr pr' a hf => ?_) h
+  simp only [Except.ok.injEq, Prod.mk.injEq] at hf
+  rw [← hf.1]
+
+theorem freezeProposal_eq (σ : State) :
+    freezeProposal P σ = liftRoot σ (σ.root.atRound P σ.pl σ.pl.round σ.pl.period
+      (fun rr => rr.atPeriod σ.pl σ.pl.period 0 (fun pr => pr.freeze))) := by
+  unfold freezeProposal liftRoot; simp only []; split <;> simp_all
+
+theorem freezeProposal_spec {σ σ' : State} {v : Nat} (hQ : QRoot P good σ.root) (h : freezeProposal P σ = .ok (σ', v)) :
+    QRoot P good σ'.root ∧ σ'.pl = σ.pl := by
+  rw [freezeProposal_eq] at h
+  exact periodQuery_spec P good hQ (fun pr pr' a hf => freeze_steps hf) h
+
+theorem credHistoryTouch_spec {σ σ' : State} (hQ : QRoot P good σ.root) (h : credHistoryTouch P σ = .ok σ') :
+    QRoot P good σ'.root ∧ σ'.pl = σ.pl := by
+  unfold credHistoryTouch at h
+  split at h
+  · cases h; exact ⟨hQ, rfl⟩
+  split at h
+  · cases h; exact ⟨hQ, rfl⟩
+  simp only [] at h
+  split at h
+  · cases h
+  rename_i root u hx
+  simp only [Except.ok.injEq] at h
+  subst h
+  have := atRound_spec P good (R := fun _ => True) hQ (fun rr rr' a hq hfr =>
+    ⟨(atPeriod_spec P good (R := fun _ => True) hq (fun pr pr' a hqp hfp => by
+        simp only [Except.ok.injEq, Prod.mk.injEq] at hfp
+        exact ⟨hfp.1 ▸ hqp, trivial⟩) hfr).1, trivial⟩) hx
+  exact ⟨this.1, rfl⟩
+
+theorem dumpVotes_spec {σ σ' : State} {s : Nat} {vs : List UVote} (hQ : QRoot P good σ.root)
+    (h : dumpVotes P σ s = .ok (σ', vs)) : QRoot P good σ'.root ∧ σ'.pl = σ.pl := by
+  unfold dumpVotes at h
+  simp only [] at h
+  split at h
+  · cases h
+  rename_i root a hx
+  simp only [Except.ok.injEq, Prod.mk.injEq] at h
+  obtain ⟨rfl, _⟩ := h
+  have := atRound_spec P good (R := fun _ => True) hQ (fun rr rr' a hq hfr =>
+    ⟨(atPeriod_spec P good (R := fun _ => True) hq (fun pr pr' a hqp hfp =>
+        ⟨(atStep_spec good (R := fun _ => True) hqp (fun sr sr' a hqs hfs => by
+            simp only [Except.ok.injEq, Prod.mk.injEq] at hfs
+            exact ⟨hfs.1 ▸ hqs, trivial⟩) hfp).1, trivial⟩) hfr).1, trivial⟩) hx
+  exact ⟨this.1, rfl⟩
+
+/-! ### read-after-write of the staging value -/
 
 /-- the staging value the tree holds for (r, p) -/
 def stagingAt (root : Root) (r p : Nat) : Option Nat := (aget root.rounds r).bind (fun rr => stagingOf rr p)
 
+theorem upd_not_keep {pl : PlayerF} (rr : RoundR) {p : Nat} (hk : keepPeriod pl p = false) :
+    aget (rr.upd pl p).periods p = none := by
+  unfold RoundR.upd
+  simp only []
+  rw [aget_filter_key _ (keepPeriod pl) p, hk]
+  rfl
+
 theorem upd_stagingOf {pl : PlayerF} {rr : RoundR} {p v : Nat} (h : stagingOf rr p = some v) :
-    stagingOf (rr.upd pl p) p = some v ∨ aget (rr.upd pl p).periods p = none := by
+    stagingOf (rr.upd pl p) p = some v ∨ keepPeriod pl p = false := by
   unfold stagingOf at h ⊢
   cases hg : aget rr.periods p with
   | none => rw [hg] at h; cases h
   | some pr =>
     rw [RoundR.upd_aget_of_some hg]
-    split
-    · left; rw [hg] at h; exact h
-    · right; rfl
+    cases hk : keepPeriod pl p with
+    | true => left; rw [hg] at h; simpa using h
+    | false => right; rfl
 
 theorem readStaging_reads {pl : PlayerF} {rr rr' : RoundR} {p v : Nat} {st : Staged} (hs : stagingOf rr p = some v)
     (h : rr.readStaging pl p = .ok (rr', st)) : st.proposal = v := by
@@ -71,7 +182,15 @@ theorem readStaging_reads {pl : PlayerF} {rr rr' : RoundR} {p v : Nat} {st : Sta
     simp only [Option.map_some, Option.some.injEq] at h'
     show (pr.upd 0).ptracker.staging = v
     rw [(PeriodR.upd_fields pr 0).1]; exact h'
-  · rw [hpr] at h'; cases h'
+  · rw [upd_not_keep rr h'] at hpr; cases hpr
+
+theorem readStaging_nil {pl : PlayerF} {rr : RoundR} {p : Nat} (hk : keepPeriod pl p = false) :
+    ∀ res, rr.readStaging pl p ≠ .ok res := by
+  intro res h
+  unfold RoundR.readStaging RoundR.atPeriod at h
+  simp only [] at h
+  rw [upd_not_keep rr hk] at h
+  cases h
 
 theorem staged_reads {σ σ' : State} {r p v : Nat} {st : Staged} (hs : stagingAt σ.root r p = some v)
     (h : staged P σ r p = .ok (σ', st)) : st.proposal = v := by
@@ -104,19 +223,334 @@ theorem staged_reads {σ σ' : State} {r p v : Nat} {st : Staged} (hs : stagingA
       subst hrr
       rcases upd_stagingOf (pl := σ.pl) hs with h' | h'
       · exact readStaging_reads h' hfa
-      · -- the period router was collected: the nested dispatch dereferences nil
-        exfalso
-        unfold RoundR.readStaging RoundR.atPeriod at hfa
-        simp only [] at hfa
-        have : aget ((rr₀.upd σ.pl p).upd σ.pl p).periods p = none := by
-          unfold RoundR.upd at h' ⊢
-          simp only [] at h' ⊢
-          rw [h']
-          simp only [aget_append, Option.none_or]
-          rw [aget_filter_key _ (keepPeriod σ.pl) p]
-          unfold RoundR.upd at h'
-          sorry
-        sorry
+      · exact absurd hfa (readStaging_nil h' _)
     · cases hrr
+
+/-! ### proposalManager -/
+
+/-- `atRound` with a postcondition on the new round router, which is then the one stored under `r` -/
+theorem atRound_spec' {α : Type} {R : RoundR → α → Prop} {pl : PlayerF} {r p : Nat} {root root' : Root} {a : α}
+    {f : RoundR → Except Panic (RoundR × α)}
+    (hQ : QRoot P good root)
+    (hf : ∀ rr rr' a, QR P good r rr → f rr = .ok (rr', a) → QR P good r rr' ∧ R rr' a)
+    (h : root.atRound P pl r p f = .ok (root', a)) :
+    QRoot P good root' ∧ ∃ rr', aget root'.rounds r = some rr' ∧ R rr' a := by
+  have h1 := (atRound_spec P good (R := fun _ => True) hQ (fun rr rr' a hq hfr => ⟨(hf rr rr' a hq hfr).1, trivial⟩) h).1
+  refine ⟨h1, ?_⟩
+  unfold Root.atRound at h
+  simp only [] at h
+  split at h
+  · cases h
+  · rename_i rr hrr
+    split at h
+    · cases h
+    · rename_i rr' a' hfa
+      simp only [Except.ok.injEq, Prod.mk.injEq] at h
+      obtain ⟨rfl, rfl⟩ := h
+      have hup := QRoot_upd P good (pl := pl) (r := r) hQ
+      have hrrQ : QR P good r rr := hup (r, rr) (aget_mem hrr)
+      exact ⟨rr', aget_aset_self _ _ _, (hf _ rr' a' (QR_upd P good hrrQ) hfa).2⟩
+
+theorem pmNewPeriod_spec {σ σ' : State} {e : Thresh} (hQ : QRoot P good σ.root) (h : pmNewPeriod P σ e = .ok σ') :
+    QRoot P good σ'.root ∧ σ'.pl = σ.pl := by
+  unfold pmNewPeriod at h
+  simp only [] at h
+  split at h
+  · cases h
+  rename_i root u hx
+  simp only [Except.ok.injEq] at h
+  subst h
+  exact ⟨(atRound_spec P good (R := fun _ => True) hQ (fun rr rr' a hq hfr => ⟨newPeriod_spec P good hq hfr, trivial⟩) hx).1, rfl⟩
+
+theorem QRoot_updσ {σ : State} (r : Nat) (hQ : QRoot P good σ.root) :
+    QRoot P good ({ σ with root := σ.root.upd P σ.pl r } : State).root := QRoot_upd P good hQ
+
+theorem pmThreshold_spec {σ σ' : State} {rt : Nat} {e : Thresh} {c : Option (Nat × Option PVote)} (hQ : QRoot P good σ.root)
+    (h : pmThreshold P σ rt e = .ok (σ', c)) :
+    QRoot P good σ'.root ∧ σ'.pl = σ.pl ∧ (e.kind ≠ 3 → stagingAt σ'.root e.round e.period = some e.proposal) := by
+  unfold pmThreshold at h
+  simp only [] at h
+  split at h
+  · cases h
+  split at h
+  · cases h
+  split at h
+  · cases h
+  have hQ₀ := QRoot_updσ P good rt hQ
+  split at h
+  · rename_i hk
+    split at h
+    · cases h
+    rename_i σ₁ hnp
+    simp only [Except.ok.injEq, Prod.mk.injEq] at h
+    obtain ⟨rfl, _⟩ := h
+    obtain ⟨h1, h2⟩ := pmNewPeriod_spec P good (σ := { σ with root := σ.root.upd P σ.pl rt }) hQ₀ hnp
+    exact ⟨h1, h2, fun hne => absurd hk hne⟩
+  · split at h
+    · cases h
+    rename_i σ₁ hσ₁
+    have hQ₁ : QRoot P good σ₁.root ∧ σ₁.pl = σ.pl := by
+      split at hσ₁
+      · exact pmNewPeriod_spec P good (σ := { σ with root := σ.root.upd P σ.pl rt }) hQ₀ hσ₁
+      · simp only [Except.ok.injEq] at hσ₁; subst hσ₁; exact ⟨hQ₀, rfl⟩
+    split at h
+    · cases h
+    rename_i root c' hx
+    simp only [Except.ok.injEq, Prod.mk.injEq] at h
+    obtain ⟨rfl, _⟩ := h
+    obtain ⟨h1, rr', hrr', hst⟩ := atRound_spec' P good (R := fun rr' _ => stagingOf rr' e.period = some e.proposal) hQ₁.1
+      (fun rr rr' a hq hfr => threshold_spec P good hq hfr) hx
+    refine ⟨h1, hQ₁.2, fun _ => ?_⟩
+    show stagingAt root e.round e.period = some e.proposal
+    unfold stagingAt
+    rw [hrr']; exact hst
+
+theorem pmNewRound_spec {σ σ' : State} {target : Nat} {res : PayRes} (hQ : QRoot P good σ.root)
+    (h : pmNewRound P σ target = .ok (σ', res)) : QRoot P good σ'.root ∧ σ'.pl = σ.pl := by
+  unfold pmNewRound at h
+  simp only [] at h
+  split at h
+  · cases h
+  rename_i root a hx
+  simp only [Except.ok.injEq, Prod.mk.injEq] at h
+  obtain ⟨rfl, _⟩ := h
+  exact ⟨(atRound_spec P good (R := fun _ => True) (QRoot_updσ P good target hQ)
+    (fun rr rr' a hq hfr => ⟨newRound_spec hfr ▸ hq, trivial⟩) hx).1, rfl⟩
+
+theorem pmVoteVerified_spec {σ σ' : State} {bad : Bad} {v : PVote} {res : PMVote} (hQ : QRoot P good σ.root)
+    (h : pmVoteVerified P σ bad v = .ok (σ', res)) : QRoot P good σ'.root ∧ σ'.pl = σ.pl := by
+  unfold pmVoteVerified at h
+  simp only [] at h
+  have hQ₀ := QRoot_updσ P good 0 hQ
+  split at h
+  · simp only [Except.ok.injEq, Prod.mk.injEq] at h; obtain ⟨rfl, _⟩ := h; exact ⟨hQ₀, rfl⟩
+  split at h
+  · simp only [Except.ok.injEq, Prod.mk.injEq] at h; obtain ⟨rfl, _⟩ := h; exact ⟨hQ₀, rfl⟩
+  split at h
+  · simp only [Except.ok.injEq, Prod.mk.injEq] at h; obtain ⟨rfl, _⟩ := h; exact ⟨hQ₀, rfl⟩
+  split at h
+  · cases h
+  rename_i root res' hx
+  have h1 := (atRound_spec P good (R := fun _ => True) hQ₀
+    (fun rr rr' a hq hfr => ⟨pvoteVerified_spec P good hq hfr, trivial⟩) hx).1
+  repeat' split at h
+  all_goals (simp only [Except.ok.injEq, Prod.mk.injEq] at h; obtain ⟨rfl, _⟩ := h; exact ⟨h1, rfl⟩)
+
+theorem pmVotePresent_spec {σ σ' : State} {v : PVote} {res : PMVote} (hQ : QRoot P good σ.root)
+    (h : pmVotePresent P σ v = .ok (σ', res)) : QRoot P good σ'.root ∧ σ'.pl = σ.pl := by
+  have hQ₀ := QRoot_updσ P good 0 hQ
+  have hdup : ∀ (τ τ' : State) (d : Bool), QRoot P good τ.root →
+      (match τ.root.atRound P τ.pl v.round v.period (fun rr => rr.atPeriod τ.pl v.period 0 (fun pr => .ok (pr, pr.pvoteDup v.sender))) with
+        | .error e => (.error e : Except Panic (State × Bool))
+        | .ok (root, d) => .ok ({ τ with root := root }, d)) = .ok (τ', d) → QRoot P good τ'.root ∧ τ'.pl = τ.pl := by
+    intro τ τ' d hq hm
+    split at hm
+    · cases hm
+    rename_i root d' hx
+    simp only [Except.ok.injEq, Prod.mk.injEq] at hm
+    obtain ⟨rfl, _⟩ := hm
+    exact ⟨(atRound_spec P good (R := fun _ => True) hq (fun rr rr' a hqr hfr =>
+      ⟨(atPeriod_spec P good (R := fun _ => True) hqr (fun pr pr' a hqp hfp => by
+          simp only [Except.ok.injEq, Prod.mk.injEq] at hfp
+          exact ⟨hfp.1 ▸ hqp, trivial⟩) hfr).1, trivial⟩) hx).1, rfl⟩
+  unfold pmVotePresent at h
+  simp only [] at h
+  split at h
+  · split at h
+    · split at h
+      · cases h
+      rename_i τ' dup hd
+      simp only [Except.ok.injEq, Prod.mk.injEq] at h
+      obtain ⟨rfl, _⟩ := h
+      exact hdup { σ with root := σ.root.upd P σ.pl 0 } _ _ hQ₀ hd
+    · simp only [Except.ok.injEq, Prod.mk.injEq] at h; obtain ⟨rfl, _⟩ := h; exact ⟨hQ₀, rfl⟩
+  · split at h
+    · cases h
+    rename_i τ' dup hd
+    have := hdup { σ with root := σ.root.upd P σ.pl 0 } _ _ hQ₀ hd
+    split at h <;> (simp only [Except.ok.injEq, Prod.mk.injEq] at h; obtain ⟨rfl, _⟩ := h; exact this)
+
+theorem pmPayload_spec {σ σ' : State} {verified : Bool} {bad : Bad} {p : Payload} {res : PayRes} (hQ : QRoot P good σ.root)
+    (hp : verified = true → bad ≠ 2 → bad ≠ 1 → p.round = σ.pl.round)
+    (h : pmPayload P σ verified bad p = .ok (σ', res)) : QRoot P good σ'.root ∧ σ'.pl = σ.pl := by
+  have hQ₀ := QRoot_updσ P good 0 hQ
+  unfold pmPayload at h
+  simp only [] at h
+  split at h
+  · split at h
+    · split at h
+      · cases h
+      rename_i root res' hx
+      have h1 := (atRound_spec P good (R := fun _ => True) hQ₀ (fun rr rr' a hq hfr => by
+        simp only [Except.ok.injEq] at hfr
+        have := payloadPresent_spec P good (pl := σ.pl) (up := p) hq
+        rw [hfr] at this
+        exact ⟨this, trivial⟩) hx).1
+      split at h <;> (simp only [Except.ok.injEq, Prod.mk.injEq] at h; obtain ⟨rfl, _⟩ := h; exact ⟨h1, rfl⟩)
+    · split at h
+      · cases h
+      rename_i root res' hx
+      have h1 := (atRound_spec P good (R := fun _ => True) hQ₀ (fun rr rr' a hq hfr => by
+        simp only [Except.ok.injEq] at hfr
+        have := payloadPresent_spec P good (pl := σ.pl) (up := p) hq
+        rw [hfr] at this
+        exact ⟨this, trivial⟩) hx).1
+      split at h <;> (simp only [Except.ok.injEq, Prod.mk.injEq] at h; obtain ⟨rfl, _⟩ := h; exact ⟨h1, rfl⟩)
+  · rename_i hver
+    split at h
+    · simp only [Except.ok.injEq, Prod.mk.injEq] at h; obtain ⟨rfl, _⟩ := h; exact ⟨hQ₀, rfl⟩
+    split at h
+    · simp only [Except.ok.injEq, Prod.mk.injEq] at h; obtain ⟨rfl, _⟩ := h; exact ⟨hQ₀, rfl⟩
+    rename_i hb2 hb1
+    split at h
+    · cases h
+    rename_i root res' hx
+    simp only [Except.ok.injEq, Prod.mk.injEq] at h
+    obtain ⟨rfl, _⟩ := h
+    have hv : verified = true := by cases verified <;> simp_all
+    exact ⟨(atRound_spec P good (R := fun _ => True) hQ₀
+      (fun rr rr' a hq hfr => ⟨payloadVerified_spec P good hq (hp hv hb2 hb1) hfr, trivial⟩) hx).1, rfl⟩
+
+/-! ### voteAggregator -/
+
+/-- a threshold event that is valid for its own round -/
+def ThreshValid (e : Thresh) : Prop := ThreshOK P good e.round e
+
+theorem threshValid_of_ok {r : Nat} {e : Thresh} (h : ThreshOK P good r e) : ThreshValid P good e := by
+  intro hk
+  obtain ⟨h1, h2, h3, h4⟩ := h hk
+  exact ⟨rfl, h2, h3, h1 ▸ h4⟩
+
+theorem threshValid_empty : ThreshValid P good {} := threshOK_empty P good _
+
+theorem vaFilterVote_spec {σ σ' : State} {r p s : Nat} {x : Vote} {pass : Bool} (hQ : QRoot P good σ.root)
+    (h : vaFilterVote P σ r p s x = .ok (σ', pass)) : QRoot P good σ'.root ∧ σ'.pl = σ.pl := by
+  unfold vaFilterVote at h
+  split at h
+  · simp only [Except.ok.injEq, Prod.mk.injEq] at h; obtain ⟨rfl, _⟩ := h; exact ⟨hQ, rfl⟩
+  split at h
+  · cases h
+  rename_i root a hx
+  simp only [Except.ok.injEq, Prod.mk.injEq] at h
+  obtain ⟨rfl, _⟩ := h
+  have := atRound_spec P good (R := fun _ => True) hQ (fun rr rr' a hq hfr =>
+    ⟨(atPeriod_spec P good (R := fun _ => True) hq (fun pr pr' a hqp hfp =>
+        ⟨(atStep_spec good (R := fun _ => True) hqp (fun sr sr' a hqs hfs => by
+            simp only [Except.ok.injEq, Prod.mk.injEq] at hfs
+            exact ⟨hfs.1 ▸ hqs, trivial⟩) hfp).1, trivial⟩) hfr).1, trivial⟩) hx
+  exact ⟨this.1, rfl⟩
+
+theorem deliverVote_spec (hg : GoodSpec good) {σ σ' : State} {r p s : Nat} {x : Vote} {ev : Thresh} (hQ : QRoot P good σ.root)
+    (hx : good r p s x = true) (h : deliverVote P σ r p s x = .ok (σ', ev)) :
+    QRoot P good σ'.root ∧ ThreshOK P good r ev ∧ σ'.pl = σ.pl := by
+  unfold deliverVote at h
+  split at h
+  · cases h
+  rename_i root a hat
+  simp only [Except.ok.injEq, Prod.mk.injEq] at h
+  obtain ⟨rfl, rfl⟩ := h
+  obtain ⟨h1, h2⟩ := atRound_spec P good (R := fun a => ThreshOK P good r a) hQ
+    (fun rr rr' a hq hfr => voteAccepted_spec P good hg hq hx hfr) hat
+  exact ⟨h1, h2, rfl⟩
+
+/-- postcondition of the vote machine: a threshold event it hands to the player is valid -/
+def VAResOK : VARes → Prop
+  | .threshold e => ThreshValid P good e
+  | _ => True
+
+theorem vaVote_spec (hg : GoodSpec good) {σ σ' : State} {verified : Bool} {bad : Bad} {r p s : Nat} {x : Vote} {res : VARes}
+    (hQ : QRoot P good σ.root) (hx : verified = true → bad ≠ 2 → bad ≠ 3 → bad ≠ 1 → good r p s x = true)
+    (h : vaVote P σ verified bad r p s x = .ok (σ', res)) :
+    QRoot P good σ'.root ∧ VAResOK P good res ∧ σ'.pl = σ.pl := by
+  have hQ₀ := QRoot_updσ P good 0 hQ
+  unfold vaVote at h
+  simp only [] at h
+  split at h
+  · split at h
+    · simp only [Except.ok.injEq, Prod.mk.injEq] at h; obtain ⟨rfl, rfl⟩ := h; exact ⟨hQ₀, trivial, rfl⟩
+    split at h
+    · cases h
+    rename_i τ pass hf
+    obtain ⟨h1, h2⟩ := vaFilterVote_spec P good (σ := { σ with root := σ.root.upd P σ.pl 0 }) hQ₀ hf
+    simp only [Except.ok.injEq, Prod.mk.injEq] at h
+    obtain ⟨rfl, rfl⟩ := h
+    exact ⟨h1, by split <;> trivial, h2⟩
+  rename_i hver
+  split at h
+  · simp only [Except.ok.injEq, Prod.mk.injEq] at h; obtain ⟨rfl, rfl⟩ := h; exact ⟨hQ₀, trivial, rfl⟩
+  split at h
+  · simp only [Except.ok.injEq, Prod.mk.injEq] at h; obtain ⟨rfl, rfl⟩ := h; exact ⟨hQ₀, trivial, rfl⟩
+  split at h
+  · simp only [Except.ok.injEq, Prod.mk.injEq] at h; obtain ⟨rfl, rfl⟩ := h; exact ⟨hQ₀, trivial, rfl⟩
+  rename_i hb2 hb3 hb1
+  split at h
+  · cases h
+  · rename_i τ hf
+    obtain ⟨h1, h2⟩ := vaFilterVote_spec P good (σ := { σ with root := σ.root.upd P σ.pl 0 }) hQ₀ hf
+    simp only [Except.ok.injEq, Prod.mk.injEq] at h; obtain ⟨rfl, rfl⟩ := h; exact ⟨h1, trivial, h2⟩
+  · rename_i τ hf
+    obtain ⟨h1, h2⟩ := vaFilterVote_spec P good (σ := { σ with root := σ.root.upd P σ.pl 0 }) hQ₀ hf
+    split at h
+    · cases h
+    rename_i τ' ev hd
+    have hv : verified = true := by cases verified <;> simp_all
+    obtain ⟨h3, h4, h5⟩ := deliverVote_spec P good hg h1 (hx hv hb2 hb3 hb1) hd
+    repeat' split at h
+    all_goals first
+      | (simp only [Except.ok.injEq, Prod.mk.injEq] at h; obtain ⟨rfl, rfl⟩ := h
+         exact ⟨h3, by first | trivial | exact threshValid_of_ok P good h4, h5.trans h2⟩)
+      | cases h
+
+theorem deliverAll_spec (hg : GoodSpec good) {r p s : Nat} : ∀ (vs : List Vote) {σ σ' : State} {acc ev : Thresh},
+    QRoot P good σ.root → (∀ x ∈ vs, good r p s x = true) → ThreshValid P good acc →
+    deliverAll P r p s σ vs acc = .ok (σ', ev) → QRoot P good σ'.root ∧ ThreshValid P good ev ∧ σ'.pl = σ.pl := by
+  intro vs
+  induction vs with
+  | nil =>
+    intro σ σ' acc ev hQ _ hacc h
+    simp only [deliverAll, Except.ok.injEq, Prod.mk.injEq] at h
+    obtain ⟨rfl, rfl⟩ := h
+    exact ⟨hQ, hacc, rfl⟩
+  | cons x rest ih =>
+    intro σ σ' acc ev hQ hall hacc h
+    simp only [deliverAll] at h
+    split at h
+    · cases h
+    rename_i τ e₁ hd
+    obtain ⟨h1, h2, h3⟩ := deliverVote_spec P good hg hQ (hall x List.mem_cons_self) hd
+    obtain ⟨h4, h5, h6⟩ := ih h1 (fun y hy => hall y (List.mem_cons_of_mem _ hy))
+      (by split
+          · exact threshValid_of_ok P good h2
+          · exact hacc) h
+    exact ⟨h4, h5, h6.trans h3⟩
+
+theorem vaBundle_spec (hg : GoodSpec good) {σ σ' : State} {verified : Bool} {bad : Bad} {r p s value : Nat}
+    {votes : List (Nat × Nat)} {eqs : List EqVote} {res : VARes} (hQ : QRoot P good σ.root)
+    (hx : verified = true → bad ≠ 2 → bad ≠ 3 → bad ≠ 1 → ∀ x ∈ bundleVotes value votes eqs, good r p s x = true)
+    (h : vaBundle P σ verified bad r p s value votes eqs = .ok (σ', res)) :
+    QRoot P good σ'.root ∧ VAResOK P good res ∧ σ'.pl = σ.pl := by
+  have hQ₀ := QRoot_updσ P good 0 hQ
+  unfold vaBundle at h
+  simp only [] at h
+  split at h
+  · simp only [Except.ok.injEq, Prod.mk.injEq] at h; obtain ⟨rfl, rfl⟩ := h
+    exact ⟨hQ₀, by split <;> trivial, rfl⟩
+  rename_i hver
+  split at h
+  · simp only [Except.ok.injEq, Prod.mk.injEq] at h; obtain ⟨rfl, rfl⟩ := h; exact ⟨hQ₀, trivial, rfl⟩
+  split at h
+  · simp only [Except.ok.injEq, Prod.mk.injEq] at h; obtain ⟨rfl, rfl⟩ := h; exact ⟨hQ₀, trivial, rfl⟩
+  split at h
+  · simp only [Except.ok.injEq, Prod.mk.injEq] at h; obtain ⟨rfl, rfl⟩ := h; exact ⟨hQ₀, trivial, rfl⟩
+  rename_i hb2 hb3 hb1
+  split at h
+  · simp only [Except.ok.injEq, Prod.mk.injEq] at h; obtain ⟨rfl, rfl⟩ := h; exact ⟨hQ₀, trivial, rfl⟩
+  split at h
+  · cases h
+  rename_i τ ev hd
+  have hv : verified = true := by cases verified <;> simp_all
+  obtain ⟨h1, h2, h3⟩ := deliverAll_spec P good hg _ (σ := { σ with root := σ.root.upd P σ.pl 0 }) hQ₀
+    (hx hv hb2 hb3 hb1) (threshValid_empty P good) hd
+  split at h <;> (simp only [Except.ok.injEq, Prod.mk.injEq] at h; obtain ⟨rfl, rfl⟩ := h; exact ⟨h1, by first | trivial | exact h2, h3⟩)
 
 end AlgoVerif.Lemmas.Player
